@@ -4,6 +4,9 @@ package eni
 
 import (
 	"context"
+	"sync"
+	"time"
+	"unsafe"
 
 	podENITypes "github.com/AliyunContainerService/terway/pkg/apis/network.alibabacloud.com/v1beta1"
 	"github.com/AliyunContainerService/terway/types/daemon"
@@ -37,3 +40,69 @@ func VerifSyncPool(ctx context.Context, m *Manager) { m.syncPool(ctx) }
 
 // VerifSync runs one periodic cloud sync of a Local.
 func (l *Local) VerifSync() { l.sync() }
+
+// ---- lock-region observation of a Local (the harness schedules and records every lock region) ----
+
+// VerifIP is one pool entry as the harness sees it.
+type VerifIP struct {
+	IP      string
+	Pod     string
+	Status  string
+	Primary bool
+}
+
+// VerifReq identifies a queued request (by its address) and says whether its worker is gone.
+type VerifReq struct {
+	Ptr     uintptr
+	NoCache bool
+	Done    bool
+}
+
+// VerifLocalState is every field of a Local the pool's behaviour depends on.
+type VerifLocalState struct {
+	ENI          string
+	Status       string
+	V4, V6       []VerifIP
+	Alloc4       []VerifReq
+	Alloc6       []VerifReq
+	Dang4, Dang6 []VerifReq
+	Inhibit      bool
+}
+
+// VerifSetLocker replaces the Local's mutex (before Run) by a Locker of the harness.
+func (l *Local) VerifSetLocker(lk sync.Locker) { l.cond = sync.NewCond(lk) }
+
+// VerifStateLocked reads the state; the caller holds the Local's lock.
+func (l *Local) VerifStateLocked() VerifLocalState {
+	s := VerifLocalState{Status: l.status.String(), Inhibit: l.ipAllocInhibitExpireAt.After(time.Now())}
+	if l.eni != nil {
+		s.ENI = l.eni.ID
+	}
+	set := func(m Set) []VerifIP {
+		var r []VerifIP
+		for _, v := range m {
+			r = append(r, VerifIP{IP: v.ip.String(), Pod: v.podID, Status: v.status.String(), Primary: v.primary})
+		}
+		return r
+	}
+	reqs := func(a AllocatingRequests) []VerifReq {
+		var r []VerifReq
+		for _, q := range a {
+			done := false
+			select {
+			case <-q.workerCtx.Done():
+				done = true
+			default:
+			}
+			r = append(r, VerifReq{Ptr: uintptr(unsafe.Pointer(q)), NoCache: q.NoCache, Done: done})
+		}
+		return r
+	}
+	s.V4, s.V6 = set(l.ipv4), set(l.ipv6)
+	s.Alloc4, s.Alloc6 = reqs(l.allocatingV4), reqs(l.allocatingV6)
+	s.Dang4, s.Dang6 = reqs(l.dangingV4), reqs(l.dangingV6)
+	return s
+}
+
+// VerifRequestPtr is the identity VerifReq.Ptr reports for a request.
+func VerifRequestPtr(r *LocalIPRequest) uintptr { return uintptr(unsafe.Pointer(r)) }
